@@ -64,6 +64,9 @@ L2_MUT_WF = ["RModel.Impl.wf_iaddRM", "RModel.Impl.wf_iremoveRM", "RModel.Impl.w
              "RModel.Impl.wf_notRange", "RModel.Impl.wf_inotRange", "RModel.Impl.wf_iand2", "RModel.Impl.wf_ior2",
              "RModel.Impl.wf_ixor2", "RModel.Impl.wf_iandNot2"]
 L2_IBIN = ["RModel.Impl.toBSet_iand2", "RModel.Impl.toBSet_ior2", "RModel.Impl.toBSet_ixor2", "RModel.Impl.toBSet_iandNot2"]
+L2_AGG = ["RModel.Impl.Rep.toBSet_fastOr", "RModel.Impl.Rep.wf_fastOr", "RModel.Impl.Rep.toBSet_fastAnd", "RModel.Impl.Rep.wf_fastAnd",
+          "RModel.Impl.Rep.toBSet_andAny", "RModel.Impl.Rep.wf_andAny", "RModel.Impl.Rep.wf_repairAfterLazy",
+          "RModel.Impl.Rep.toBSet_repairAfterLazy", "RModel.Impl.lazyOk_lazyIOR2", "RModel.Impl.lazyOk_lazyOR2"]
 L1_XFORM = ["RModel.BSet.mem_shift", "RModel.BSet.canon_shift", "RModel.BSet.mem_flipRange", "RModel.BSet.canon_xor"]
 
 PROPS = {
@@ -119,7 +122,8 @@ PROPS = {
                          "RModel.Impl.decoded_valid_is_wf", "RModel.Impl.validate_implies_wf_of_decoded",
                          "RModel.Impl.frozenView_no_panic", "RModel.BSet.canon_ext"] + F_SERIAL,
             "modules": DEFAULT_MODULES + [FACTS, "RProofs.Properties.C09", "RProofs.Properties.C05", "RProofs.Properties.C13"], "owns": None},
-    "C11": {"suites": [("agg", 1.0), ("kernspecial", 0.6)], "theorems": L1_AGG + L1_ALGEBRA, "modules": DEFAULT_MODULES + ["RProofs.Agg"], "owns": set(AGG_OPS) | {"kern"}},
+    "C11": {"suites": [("agg", 1.0), ("kernspecial", 0.6), ("l2agg", 0.7)], "theorems": L1_AGG + L1_ALGEBRA + L2_AGG,
+            "modules": DEFAULT_MODULES + ["RProofs.Agg", "RProofs.LazyOps"], "owns": set(AGG_OPS) | {"kern", "l2agg", "l2lazy"}},
     # C12: schedule independence / termination / no leak (sched), concurrent decoding through the pools (concdec); the
     # protocol theorems are about the transition systems of Impl/Par.lean, pinned to the source by the skeleton obligations
     "C12": {"suites": [("sched", 1.0)], "theorems": PAR + L1_AGG[:3],
